@@ -24,7 +24,7 @@ REQUIRED_MONITORS = ["C09.rot:generation-field", "C09.rot:dissipation-field", "C
                      "C09.mirror:dissipation-direction", "C09.rot:inversion"]
 REQUIRED_COUNTERS = {"C09.N:16": 1, "C09.N:24": 1, "C09.N:36": 1}
 TIMEOUT = {"quick": 1800, "thorough": 7200}
-N = {"quick": (6, 6), "thorough": (12, 40)}
+N = {"quick": (6, 6), "thorough": (12, 8)}
 
 
 def plan(tier, seed):
